@@ -207,6 +207,37 @@ theorem C18_execute_kernel (K : Kernel) (n : Nat)
 example : ∀ i < 8, ∀ j < 8, (100 + i = 100 + j → i = j) ∧ (100 + i ∉ [j, j + 1]) := by
   intro i hi j hj; constructor <;> (simp; try omega)
 
+/-! ### the hypotheses are needed: workers sharing ONE scratch cell (seeded change C18r2-1) -/
+
+/-- a worker of a fork-join whose loop body stages its input in the scratch cell 0 (`scratch = in; out = f(scratch)`);
+the scratch cell is shared by all workers when the variable is declared outside the closure handed to `parallel.Execute` -/
+def scratchWorker (inp out : Nat) : Task :=
+  [⟨[inp], 0, fun l => l.headD 0⟩, ⟨[0], out, fun l => l.headD 0⟩]
+
+/-- such workers are NOT independent (both write cell 0): `C18_fork_join` / `C18_execute_kernel` do not apply to them -/
+theorem C18_shared_scratch_not_independent (i₁ o₁ i₂ o₂ : Nat) :
+    ¬ Independent [scratchWorker i₁ o₁, scratchWorker i₂ o₂] := by
+  intro h
+  have h1 : TaskIndep (scratchWorker i₁ o₁) (scratchWorker i₂ o₂) := by
+    have := List.pairwise_cons.1 h
+    exact this.1 _ (List.mem_cons_self ..)
+  have := (h1.1 0 (by simp [writes, scratchWorker])).1
+  exact this (by simp [writes, scratchWorker])
+
+/-- and there is a schedule under which a worker outputs the OTHER worker's input: B's store to the scratch cell lands
+between A's store and A's load. Run one after the other (one processor) the same workers output their own inputs. -/
+theorem C18_shared_scratch_race :
+    ∃ l, Interleave [scratchWorker 10 20, scratchWorker 11 21] l ∧
+      ∀ σ : State, runSteps l σ 20 = σ 11 ∧ runSeq [scratchWorker 10 20, scratchWorker 11 21] σ 20 = σ 10 := by
+  refine ⟨[⟨[10], 0, fun l => l.headD 0⟩, ⟨[11], 0, fun l => l.headD 0⟩, ⟨[0], 20, fun l => l.headD 0⟩,
+           ⟨[0], 21, fun l => l.headD 0⟩], ?_, ?_⟩
+  · exact Interleave.step [] _ [⟨[0], 20, fun l => l.headD 0⟩] [scratchWorker 11 21] _
+      (Interleave.step [[⟨[0], 20, fun l => l.headD 0⟩]] _ [⟨[0], 21, fun l => l.headD 0⟩] [] _
+        (Interleave.step [] _ [] [[⟨[0], 21, fun l => l.headD 0⟩]] _
+          (Interleave.step [[]] _ [] [] _ (Interleave.done _ (by simp)))))
+  · intro σ
+    simp [runSeq, runSteps, Step.run, scratchWorker]
+
 /-! ## (2) sync.Once -/
 
 /-- atomic view: whatever each caller passes to `Do`, all callers observe the value of the first one; an already
